@@ -65,6 +65,12 @@ class VC:
                 self.decls[e[1]] = e[3]
             elif h == "assert":
                 self.asserts.append(e[1])
+        # CBMC declares path guards as Bool symbols and constrains them with (assert (= guard expr)): single static assignment,
+        # so the constraint is their definition
+        for a in self.asserts:
+            if isinstance(a, list) and len(a) == 3 and a[0] == "=" and isinstance(a[1], str) and a[1] in self.decls \
+                    and self.decls[a[1]] == "Bool" and "guard" in a[1] and a[1] not in self.defs:
+                self.defs[a[1]] = a[2]
         self._final = None
 
     def final_versions(self, base):
@@ -521,11 +527,12 @@ class UFDom:
 
 # ----------------------------------------------------------------------------- Int domain
 class IPoly:
-    """integer polynomial over atoms + rigorous interval [lo,hi] of its value + bit width"""
-    __slots__ = ("t", "lo", "hi", "w")
+    """integer polynomial over atoms + rigorous interval [lo,hi] of its (mathematical) value + bit width.
+    sg: the bits are the two's complement of the value (it may be negative); otherwise the value is the unsigned reading."""
+    __slots__ = ("t", "lo", "hi", "w", "sg")
 
-    def __init__(self, t, lo, hi, w):
-        self.t, self.lo, self.hi, self.w = t, lo, hi, w
+    def __init__(self, t, lo, hi, w, sg=False):
+        self.t, self.lo, self.hi, self.w, self.sg = t, lo, hi, w, sg
 
 
 def ip_add(a, b, sign=1):
@@ -575,6 +582,7 @@ class IntDom:
         self.atom_ranges = atom_ranges or {}
         self.hi_cache = {}
         self.nops = 0
+        self.allow_signed = False  # set by analyses of code that computes with signed integers (conversions)
 
     def new_atom(self, name, lo, hi):
         i = len(self.names)
@@ -620,8 +628,48 @@ class IntDom:
     def _const(self, x):
         return x.lo if (isinstance(x, IPoly) and x.lo == x.hi and set(x.t) <= {()}) else None
 
+    def poly_interval(self, t):
+        """rigorous interval of an integer polynomial from the (non-negative) atom ranges"""
+        lo = hi = 0
+        for m, c in t.items():
+            plo = phi = 1
+            for a in m:
+                alo, ahi = self.ranges[a]
+                plo *= alo
+                phi *= ahi
+            if c >= 0:
+                lo += c * plo
+                hi += c * phi
+            else:
+                lo += c * phi
+                hi += c * plo
+        return lo, hi
+
+    def split_exact(self, x, k):
+        """if x == 2^k*A + B with 0 <= B < 2^k provable from the atom ranges, return (A, B) as IPolys"""
+        A, B = {}, {}
+        step = 1 << k
+        for m, c in x.t.items():
+            if c % step == 0:
+                A[m] = c // step
+            else:
+                B[m] = c
+        if not A:
+            return None
+        blo, bhi = self.poly_interval(B)
+        if blo < 0 or bhi >= step:
+            return None
+        alo, ahi = self.poly_interval(A)
+        alo, ahi = max(alo, x.lo >> k), min(ahi, x.hi >> k)
+        return IPoly(A, alo, ahi, x.w), IPoly(B, max(blo, 0), bhi, x.w)
+
     def _hi(self, x, k):
         """floor(x / 2^k) as an atom (cached per (polynomial, k))"""
+        if 0 <= x.lo and x.hi < (1 << k):
+            return None, IPoly({}, 0, 0, x.w)
+        sp = self.split_exact(x, k) if x.lo >= 0 else None
+        if sp is not None:
+            return None, sp[0]
         key = (tuple(sorted(x.t.items())), k)
         if key in self.hi_cache:
             i = self.hi_cache[key]
@@ -637,6 +685,7 @@ class IntDom:
         if not isinstance(x, IPoly):
             raise Unsupported("indexed %s on non-bv" % op)
         if op == "zero_extend":
+            x = self._unsigned(x, "zero_extend")
             return IPoly(x.t, x.lo, x.hi, x.w + idx[0])
         if op == "extract":
             hi, lo = idx
@@ -645,60 +694,180 @@ class IntDom:
                 v = (c >> lo) & ((1 << (hi - lo + 1)) - 1)
                 return self.bvconst(v, hi - lo + 1)
             if lo == 0:
-                if x.hi < (1 << (hi + 1)):
+                if x.lo >= 0 and x.hi < (1 << (hi + 1)):
                     return IPoly(x.t, x.lo, x.hi, hi + 1)
+                if x.lo < 0:
+                    # truncation of a signed value: bits = value mod 2^(hi+1); kept signed when it fits the narrower signed range
+                    if x.lo >= -(1 << hi) and x.hi < (1 << hi):
+                        return IPoly(x.t, x.lo, x.hi, hi + 1, True)
+                    x = self._unsigned(x, "extract")
                 return self._low(x, hi + 1, hi + 1)
+            _, h = self._hi(x, lo)
             if hi == x.w - 1:
-                _, h = self._hi(x, lo)
                 return IPoly(h.t, h.lo, h.hi, hi - lo + 1)
-            raise Unsupported("middle extract on symbolic value")
+            # middle bits: floor(x / 2^lo) mod 2^(hi-lo+1)
+            return self._low(IPoly(h.t, h.lo, h.hi, x.w), hi - lo + 1, hi - lo + 1)
         if op == "sign_extend":
-            if x.hi < (1 << (x.w - 1)):
-                return IPoly(x.t, x.lo, x.hi, x.w + idx[0])
-            raise Unsupported("sign_extend of possibly negative value")
+            sx = self._signed(x, "sign_extend")
+            return IPoly(sx.t, sx.lo, sx.hi, x.w + idx[0], sx.lo < 0)
         raise Unsupported("indexed op %s" % op)
 
     def _low(self, x, k, w):
         """x mod 2^k"""
         if x.hi < (1 << k):
             return IPoly(x.t, x.lo, x.hi, w)
+        sp = self.split_exact(x, k)
+        if sp is not None:
+            return IPoly(sp[1].t, sp[1].lo, sp[1].hi, w)
         i, h = self._hi(x, k)
         t = ip_add(x.t, ip_scale(h.t, 1 << k), -1)
         return IPoly(t, 0, (1 << k) - 1, w)
+
+    # ---- signed views -----------------------------------------------------------------------------
+    def _unsigned(self, x, what):
+        """x as an unsigned quantity (needed by shifts, masks, unsigned remainder/comparison)"""
+        if x.lo >= 0:
+            return x
+        if x.sg and x.hi < 0:
+            return IPoly(ip_add(x.t, {(): 1 << x.w}), x.lo + (1 << x.w), x.hi + (1 << x.w), x.w)
+        raise Unsupported("%s of a value whose sign is not determined (interval [%d,%d])" % (what, x.lo, x.hi))
+
+    def _signed(self, x, what):
+        """mathematical value of the two's complement reading of x"""
+        half = 1 << (x.w - 1)
+        if x.sg or x.hi < half:
+            if x.lo < -half or x.hi >= half:
+                raise Unsupported("%s: value outside the signed range" % what)
+            return x
+        if x.lo >= half:
+            return IPoly(ip_add(x.t, {(): -(1 << x.w)}), x.lo - (1 << x.w), x.hi - (1 << x.w), x.w, True)
+        raise Unsupported("%s of a value whose sign bit is not determined (interval [%d,%d]); split the harness input by sign" % (what, x.lo, x.hi))
+
+    def _fresh_switch(self):
+        i = self.new_atom("sw_%d" % len(self.names), 0, 1)
+        self.defs[i] = ("switch", {}, 0)
+        return i
+
+    def _cmp(self, kind, a, b):
+        """comparison a ? b as ('bool', v) when decided by the intervals, else a symbolic condition"""
+        if kind.startswith("bvs"):
+            a, b = self._signed(a, kind), self._signed(b, kind)
+        else:
+            a, b = self._unsigned(a, kind), self._unsigned(b, kind)
+        rel = kind[3:]
+        tests = {"lt": (a.hi < b.lo, a.lo >= b.hi), "le": (a.hi <= b.lo, a.lo > b.hi), "gt": (a.lo > b.hi, a.hi <= b.lo), "ge": (a.lo >= b.hi, a.hi < b.lo)}
+        yes, no = tests[rel]
+        if yes:
+            return ("bool", True)
+        if no:
+            return ("bool", False)
+        return ("cmp", rel, a, b)
+
+    def _ite(self, c, p, r):
+        """c symbolic: value r + s*(p-r) with a fresh s in {0,1}; interval = hull of the two branches, each refined by the
+        branch condition when the branch value is (compared term + constant)"""
+        if not (isinstance(p, IPoly) and isinstance(r, IPoly)):
+            raise Unsupported("ite on non-integer values")
+        plo, phi, rlo, rhi = p.lo, p.hi, r.lo, r.hi
+        if c[0] == "cmp":
+            rel, a, b = c[1], c[2], c[3]
+            cb = self._const(b)
+            if cb is not None:
+                tr = {"lt": (a.lo, min(a.hi, cb - 1)), "le": (a.lo, min(a.hi, cb)), "gt": (max(a.lo, cb + 1), a.hi), "ge": (max(a.lo, cb), a.hi)}[rel]
+                fl = {"lt": (max(a.lo, cb), a.hi), "le": (max(a.lo, cb + 1), a.hi), "gt": (a.lo, min(a.hi, cb)), "ge": (a.lo, min(a.hi, cb - 1))}[rel]
+                for (v, rng, which) in ((p, tr, "p"), (r, fl, "r")):
+                    d = ip_add(v.t, a.t, -1)
+                    if set(d) <= {()}:
+                        k = d.get((), 0)
+                        if which == "p":
+                            plo, phi = max(plo, rng[0] + k), min(phi, rng[1] + k)
+                        else:
+                            rlo, rhi = max(rlo, rng[0] + k), min(rhi, rng[1] + k)
+            s_atom = self._fresh_switch()
+        elif c[0] == "nz":
+            # (poly != 0) where poly = k*h, h an atom with range within [0,1] or [-1,0]: the switch IS that atom
+            poly = c[1]
+            s_atom = None
+            if len(poly) == 1:
+                (m, k), = poly.items()
+                if len(m) == 1 and k != 0:
+                    lo, hi = self.ranges[m[0]]
+                    if (lo, hi) in ((0, 1), (0, 0), (1, 1)):
+                        sw = {m: 1}
+                    elif (lo, hi) in ((-1, 0), (-1, -1)):
+                        sw = {m: -1}
+                    else:
+                        sw = None
+                    if sw is not None:
+                        diff = ip_add(p.t, r.t, -1)
+                        t = ip_add(r.t, ip_mul(sw, diff))
+                        return IPoly(t, min(plo, rlo), max(phi, rhi), p.w, p.sg or r.sg or min(plo, rlo) < 0)
+            s_atom = self._fresh_switch()
+            if c[2]:  # negated: condition is (poly == 0)
+                p, r, plo, phi, rlo, rhi = r, p, rlo, rhi, plo, phi
+        else:
+            raise Unsupported("ite condition %r" % (c[0],))
+        diff = ip_add(p.t, r.t, -1)
+        t = ip_add(r.t, ip_mul({(s_atom,): 1}, diff))
+        lo, hi = min(plo, rlo), max(phi, rhi)
+        return IPoly(t, lo, hi, p.w, p.sg or r.sg or lo < 0)
 
     def apply(self, op, args):
         self.nops += 1
         if op == "bvadd":
             t, lo, hi = {}, 0, 0
             w = args[0].w
+            if self.allow_signed:
+                # CBMC prints `a - c` as `a + (2^w - c)`: in code declared to compute with signed integers a constant addend with the
+                # top bit set is the negative number it denotes in two's complement
+                args = [IPoly({(): self._const(a) - (1 << w)}, self._const(a) - (1 << w), self._const(a) - (1 << w), w, True)
+                        if (self._const(a) is not None and self._const(a) >= (1 << (w - 1))) else a for a in args]
             for a in args:
                 t = ip_add(t, a.t)
                 lo += a.lo
                 hi += a.hi
-            self._oblig(hi < (1 << w), "bvadd may wrap 2^%d: upper bound %d" % (w, hi))
-            return IPoly(t, lo, hi, w)
+            self._oblig(hi < (1 << w) and lo >= -(1 << (w - 1)), "bvadd may wrap 2^%d: interval [%d,%d]" % (w, lo, hi))
+            return IPoly(t, lo, hi, w, lo < 0)
         if op == "bvsub":
             a, b = args
-            self._oblig(a.lo >= b.hi, "bvsub may borrow: min(a)=%d < max(b)=%d" % (a.lo, b.hi))
-            return IPoly(ip_add(a.t, b.t, -1), a.lo - b.hi, a.hi - b.lo, a.w)
+            lo, hi = a.lo - b.hi, a.hi - b.lo
+            if lo >= 0 and not self.allow_signed:
+                self._oblig(True, "")
+                return IPoly(ip_add(a.t, b.t, -1), lo, hi, a.w)
+            if not self.allow_signed:
+                self._oblig(False, "bvsub may borrow: min(a)=%d < max(b)=%d" % (a.lo, b.hi))
+                return IPoly(ip_add(a.t, b.t, -1), lo, hi, a.w)
+            # signed reading permitted (harness declares it): the difference must stay inside the signed range
+            self._oblig(lo >= -(1 << (a.w - 1)) and hi < (1 << a.w), "bvsub leaves the %d-bit range: [%d,%d]" % (a.w, lo, hi))
+            return IPoly(ip_add(a.t, b.t, -1), lo, hi, a.w, lo < 0)
         if op == "bvneg":
             raise Unsupported("bvneg outside a subtraction")
         if op == "bvmul":
             a = args[0]
             for b in args[1:]:
-                hi = a.hi * b.hi
-                self._oblig(hi < (1 << a.w), "bvmul may wrap 2^%d: upper bound %d" % (a.w, hi))
-                a = IPoly(ip_mul(a.t, b.t), a.lo * b.lo, hi, a.w)
+                cands = (a.lo * b.lo, a.lo * b.hi, a.hi * b.lo, a.hi * b.hi)
+                lo, hi = min(cands), max(cands)
+                self._oblig(hi < (1 << a.w) and lo >= -(1 << (a.w - 1)), "bvmul may wrap 2^%d: interval [%d,%d]" % (a.w, lo, hi))
+                a = IPoly(ip_mul(a.t, b.t), lo, hi, a.w, lo < 0)
             return a
         if op == "bvand":
             a, b = args
             for x, y in ((a, b), (b, a)):
                 c = self._const(y)
                 if c is not None and c & (c + 1) == 0:  # mask 2^k-1
-                    return self._low(x, c.bit_length(), x.w)
-            raise Unsupported("bvand that is not a low-bit mask")
+                    return self._low(self._unsigned(x, "bvand"), c.bit_length(), x.w)
+                if c is not None and c > 0:
+                    sh = (c & -c).bit_length() - 1
+                    body = c >> sh
+                    if body & (body + 1) == 0:  # contiguous run of ones starting at bit sh: 2^sh * (floor(x/2^sh) mod 2^nb)
+                        xu = self._unsigned(x, "bvand")
+                        _, h = self._hi(xu, sh)
+                        part = self._low(IPoly(h.t, h.lo, h.hi, x.w), body.bit_length(), x.w)
+                        return IPoly(ip_scale(part.t, 1 << sh), part.lo << sh, part.hi << sh, x.w)
+            raise Unsupported("bvand that is not a contiguous-bit mask")
         if op == "bvlshr":
             a, b = args
+            a = self._unsigned(a, "bvlshr")
             k = self._const(b)
             if k is None:
                 raise Unsupported("shift by symbolic amount")
@@ -716,8 +885,24 @@ class IntDom:
             hi = a.hi << k
             self._oblig(hi < (1 << a.w), "bvshl shifts bits out of 2^%d: upper bound %d" % (a.w, hi))
             return IPoly(ip_scale(a.t, 1 << k), a.lo << k, hi, a.w)
+        if op == "bvsrem":
+            a, b = args
+            q = self._const(b)
+            if not q or q < 0:
+                raise Unsupported("bvsrem by symbolic / non-positive divisor")
+            A = self._signed(a, "bvsrem")
+            if A.lo >= 0:
+                return self.apply("bvurem", [IPoly(A.t, A.lo, A.hi, A.w), b])
+            if A.hi <= 0:
+                N = IPoly(ip_scale(A.t, -1), -A.hi, -A.lo, A.w)
+                r = self.apply("bvurem", [N, b])
+                return IPoly(ip_scale(r.t, -1), -r.hi, -r.lo, A.w, True)
+            raise Unsupported("bvsrem of a value of undetermined sign; split the harness input by sign")
+        if op in ("bvslt", "bvsle", "bvsgt", "bvsge", "bvult", "bvule", "bvugt", "bvuge"):
+            return self._cmp(op, args[0], args[1])
         if op == "bvurem":
             a, b = args
+            a = self._unsigned(a, "bvurem")
             q = self._const(b)
             if not q:
                 raise Unsupported("bvurem by symbolic or zero divisor")
@@ -757,7 +942,14 @@ class IntDom:
                     r = (r << a.w) | c
                     w += a.w
                 return self.bvconst(r, w)
-            raise Unsupported("concat of symbolic parts")
+            # general concat: value = sum part_i * 2^(bits below it), exact (no reduction needed, parts are within width)
+            t, lo, hi, sh = {}, 0, 0, 0
+            for a in reversed(args):
+                t = ip_add(t, ip_scale(a.t, 1 << sh))
+                lo += a.lo << sh
+                hi += a.hi << sh
+                sh += a.w
+            return IPoly(t, lo, hi, sh)
         if op == "select":
             arr, idx = args
             c = self._const(idx) if isinstance(idx, IPoly) else None
@@ -778,12 +970,22 @@ class IntDom:
         if op == "ite":
             if isinstance(args[0], tuple) and args[0][0] == "bool":
                 return args[1] if args[0][1] else args[2]
-            raise Unsupported("data-dependent ite")
+            if isinstance(args[0], tuple) and args[0][0] in ("cmp", "nz"):
+                return self._ite(args[0], args[1], args[2])
+            raise Unsupported("data-dependent ite with condition %r" % (args[0],))
         if op == "=":
+            if all(isinstance(a, tuple) and a[0] == "bool" for a in args):
+                return ("bool", args[0][1] == args[1][1])
             ca, cb = (self._const(a) if isinstance(a, IPoly) else None for a in args)
             if ca is not None and cb is not None:
                 return ("bool", ca == cb)
-            raise Unsupported("symbolic equality as a value")
+            a, b = args
+            d = ip_add(a.t, b.t, -1)
+            if not d:
+                return ("bool", True)
+            if a.hi < b.lo or b.hi < a.lo:
+                return ("bool", False)
+            return ("nz", d, True)  # condition "d == 0"
         if op in ("bvult", "bvule", "bvugt", "bvuge"):
             a, b = args
             if op == "bvult" and a.hi < b.lo:
@@ -792,8 +994,41 @@ class IntDom:
                 return ("bool", False)
             raise Unsupported("symbolic comparison as a value")
         if op == "not" and isinstance(args[0], tuple):
-            return ("bool", not args[0][1])
+            c = args[0]
+            if c[0] == "bool":
+                return ("bool", not c[1])
+            if c[0] == "nz":
+                return ("nz", c[1], not c[2])
+            if c[0] == "cmp":
+                inv = {"lt": "ge", "le": "gt", "gt": "le", "ge": "lt"}[c[1]]
+                return ("cmp", inv, c[2], c[3])
         raise Unsupported("operation %s in the integer domain" % op)
+
+
+def int_concrete(dom, t, assign, cache=None):
+    """evaluate an integer polynomial of an IntDom on a concrete assignment of the INPUT atoms (id -> value); derived
+    atoms (floor-divisions introduced by masks, shifts and remainders) are computed from their definitions"""
+    cache = {} if cache is None else cache
+
+    def atomval(a):
+        if a in assign:
+            return assign[a]
+        if a in cache:
+            return cache[a]
+        kind, poly, k = dom.defs[a]
+        if kind == "switch":
+            raise Unsupported("concrete evaluation through a data-dependent switch")
+        v = int_concrete(dom, poly, assign, cache)
+        cache[a] = (v >> k) if kind == "div2k" else (v // k)
+        return cache[a]
+
+    tot = 0
+    for m, c in t.items():
+        p = c
+        for a in m:
+            p *= atomval(a)
+        tot += p
+    return tot
 
 
 def run_in_big_stack(fn, *a, **kw):
